@@ -386,6 +386,28 @@ Theorem C02_dispatch_independent_static_partial :
     all_ok tr1 s = all_ok tr2 s /\ (all_ok tr1 s = true -> st_equiv (run_ops tr1 s) (run_ops tr2 s)).
 Proof. exact dispatch_independent_static. Qed.
 
+(* The same for ANY class C of transactions, invariant P, equivalence E and swap relation R that
+   contains "different issuers" on C, once congruence and the diamond property (with acceptance
+   symmetry) are proved for it: this is what every further fragment (define_step, amend_step,
+   completions) has to supply to extend the dispatch theorem; C02_full is the case C = everything. *)
+Theorem C02_dispatch_independent_generic :
+  forall (E : st -> st -> Prop) (P : st -> Prop) (R : op -> op -> Prop) (C : op -> Prop),
+    (forall s, E s s) ->
+    (forall a b c, E a b -> E b c -> E a c) ->
+    (forall o s, C o -> P s -> P (apply_op s o)) ->
+    (forall o s s', C o -> P s -> P s' -> E s s' ->
+                    okb o s = okb o s' /\ E (apply_op s o) (apply_op s' o)) ->
+    (forall a b s, R a b -> C a -> C b -> P s ->
+                   accepted2 a b s = accepted2 b a s /\
+                   (accepted2 a b s = true ->
+                    E (apply_op (apply_op s a) b) (apply_op (apply_op s b) a))) ->
+    (forall a b, C a -> C b -> different_issuers a b -> R a b) ->
+    forall jobs s J1 cap1 elig1 tr1 J2 cap2 elig2 tr2,
+      wf_jobs jobs -> Forall (fun j => Forall C (jscript j)) jobs -> P s ->
+      build_trace J1 cap1 elig1 jobs tr1 -> build_trace J2 cap2 elig2 jobs tr2 ->
+      all_ok tr1 s = all_ok tr2 s /\ (all_ok tr1 s = true -> E (run_ops tr1 s) (run_ops tr2 s)).
+Proof. exact dispatch_independent_generic. Qed.
+
 (* non-vacuity: two jobs (a: two requests, needs 1 token; b: one request, needs 2 tokens), the
    sequential build under -j1 with 2 tokens and an interleaved build under -j2 with 3 tokens *)
 Definition ex_jobs : list job :=
